@@ -1,5 +1,6 @@
 import ZI.AttrsWorld
 import ZI.UpdateLemma
+import ZI.Props.C15
 /-! # C15 — tagged values set AFTER the interface was created (`I.setTaggedValue(tag, value)` on a live interface)
 
 `getTaggedValueTags()` is the union over `__iro__` and `queryTaggedValue` the nearest direct definition along `__iro__`, in every
@@ -93,6 +94,18 @@ theorem C15_settag_unrelated (w : W) (i j : Id) (t t' : String) (v : Nat) (h : j
   · unfold tagNames
     rw [setTag_iro]
     exact flatMap_congr' (fun x hm => by rw [hx x hm])
+
+/-- **C15_settag_history**: after ANY well-formed history of interface creations, `__bases__` reassignments, memo-filling lookups
+and `setTaggedValue` calls on live interfaces, in any order, one more `I_j.setTaggedValue(t, v)` is seen at once by every interface
+that has `j` in its current `__iro__` (listed and resolved), and every attribute lookup still answers the first definition along
+the current `__iro__` (the memo is untouched by tagged values) -/
+theorem C15_settag_history (ops : List WOp) (hw : WFWHist { g := Graph2.init 0 } ops) (i j : Id) (t : String) (v : Nat)
+    (h : j ∈ (ops.foldl wstep { g := Graph2.init 0 }).iro i) :
+    let w := (ops ++ [WOp.setTag j t v]).foldl wstep { g := Graph2.init 0 }
+    t ∈ tagNames w i ∧ (queryTag w i t).isSome ∧ ∀ n, (get w i n).2 = getAttr (w.iro i) w.direct n := by
+  simp only [List.foldl_append, List.foldl_cons, List.foldl_nil, wstep]
+  refine ⟨C15_settag_listed _ i j t v h, C15_settag_resolves _ i j t v h, fun n => ?_⟩
+  exact C15_get _ (winv_step _ (.setTag j t v) (winv_run ops _ winv_init hw) trivial).memo i n
 
 /-- non-vacuity (kernel): an ancestor with no tags gets its first one; the descendant lists and resolves it -/
 example : let w := newIface (newIface { g := ZI.Graph2.init 0 } 1 [0] [] [] []) 2 [1] [] [("p", 1)] []
